@@ -226,6 +226,9 @@ def generate(rng, tier):
             for which in (0, 1):
                 cases.append({"dh": {"holes": [4, 6, 3], "target": target, "edit": edit, "which": which, "cls": "DrillholeGroup"}})
     cases.append({"dh": {"holes": [2, 5], "target": "ws", "edit": "replace", "which": 0, "cls": "IntegratorDrillholeGroup"}})
+    # a drillhole group that also holds a non-concatenated child (an attached file)
+    for target in ("ws", "group"):
+        cases.append({"dh": {"holes": [3, 4], "target": target, "edit": "replace", "which": 1, "cls": "DrillholeGroup", "file": True}})
     for _ in range(6 if tier == "quick" else 200):
         cases.append({"dh": {"holes": [rng.range(1, 6) for _ in range(rng.range(2, 4))], "target": rng.choice(["ws", "ws", "group"]),
                              "edit": rng.choice(["replace", "replace", "replace_longer", "remove", "add", "rename", "removehole"]),
@@ -480,7 +483,18 @@ def drive_dh(case, work):
                 ft = np.c_[np.arange(n), np.arange(n) + 1.0]
                 h.add_data({"assay": {"values": off + np.arange(n, dtype=float), "from-to": ft},
                             "au": {"values": 2 * off + np.arange(n, dtype=float), "from-to": ft}})
+            if spec.get("file"):
+                import tempfile
+
+                fd, fpath = tempfile.mkstemp(suffix=".txt")
+                os.write(fd, b"attached")
+                os.close(fd)
+                try:
+                    g.add_file(fpath)
+                finally:
+                    os.remove(fpath)
             obs["reference"] = _dh_read(g)
+            obs["ref_others"] = sorted(type(x).__name__ for x in g.children if not isinstance(x, Drillhole))
             guid = g.uid
         wa = Workspace(pa)
         wb = Workspace.create(pb)
@@ -498,6 +512,7 @@ def drive_dh(case, work):
                 c = None
             if c is not None:
                 obs["copy_cls"] = type(c).__name__
+                obs["copy_others"] = sorted(type(x).__name__ for x in c.children if not isinstance(x, Drillhole))
                 cuid = c.uid
                 attempt("copy_read", lambda: _dh_read(c))
                 k = min(spec["which"], len(spec["holes"]) - 1)
@@ -1233,6 +1248,8 @@ def oracle_dh(case, obs):
         return isinstance(v, dict) and "raised" in v
     if obs.get("copy_cls") != "Concatenator" + spec["cls"] and obs.get("copy_cls") != spec["cls"]:
         fails.append({"key": "copy-class-differs", "what": f"{spec['cls']} copied as {obs.get('copy_cls')}"})
+    if obs.get("copy_others") != obs.get("ref_others"):
+        fails.append({"key": "dh-copy-other-children", "what": f"non-drillhole children of the group {obs.get('ref_others')} copied as {obs.get('copy_others')}"})
     if bad("copy_read") or obs.get("copy_read") != ref:
         fails.append({"key": "dh-copy-differs", "what": f"the copy does not reproduce the holes and their data: {str(obs.get('copy_read'))[:200]}"})
     if bad("edit"):
